@@ -12,6 +12,7 @@ import (
 
 	"verif/harness/internal/abs"
 	"verif/harness/internal/core"
+	"verif/harness/internal/tlcrun"
 	"verif/harness/internal/tv"
 )
 
@@ -498,7 +499,37 @@ func absServerMulti(conc *abs.Conc, m mocrelay.ServerMsg, children []*scriptedCh
 	})
 }
 
+// mergeModel: TLC explores the mechanism model MergeMC (composed with the
+// MergeObs monitor) by random simulation (quick) / more simulation (thorough).
+func mergeModel(run *core.Run, mode string) {
+	num := 4000
+	if run.Thorough() {
+		num = 60000
+	}
+	res, err := tlcrun.Run(tlcrun.Options{Module: "MergeMC", Config: "MergeMC_" + mode + ".cfg", Workers: 16, Timeout: 20 * time.Minute,
+		Simulate: fmt.Sprintf("num=%d", num), Depth: 60, Seed: run.Seed})
+	if err != nil || !res.OK {
+		tail := ""
+		if res != nil {
+			tail = res.Tail
+		}
+		if res != nil && res.PropertyViolated {
+			run.Problem("the mechanism model MergeMC violates the MergeObs monitor (model / monitor error, not a verdict on the code):\n%s", tail)
+		} else {
+			run.Problem("TLC failed on MergeMC: %v\n%s", err, tail)
+		}
+		return
+	}
+	run.Add("model_states", res.Generated)
+	run.Add("model_behaviours", res.SimTraces)
+}
+
 func mergeCheck(run *core.Run, what string, n int) {
+	if what == "req" {
+		mergeModel(run, "req")
+	} else {
+		mergeModel(run, "ok")
+	}
 	var traces []tv.Trace
 	distinct := core.NewDistinct()
 	incomplete := 0
